@@ -237,7 +237,20 @@ def mdl_numeric(fstr, labels, nparam, x, y, sig, theta0):
         th2 = [t if k else 0.0 for t, k in zip(theta, kept)]
         nll = nll_f(th2)
         if not math.isfinite(nll) or nll > 1e200:
-            return None       # the subset search of the code applies here; not judged
+            # the likelihood does not stay finite with the unresolved parameter(s) at zero, so nothing is dropped (C07: "provided
+            # the likelihood stays finite").  With exactly one unresolved parameter ESR's convention is to keep the ML parameters
+            # and charge that parameter with uncertainty = its own size (I := 12/theta^2, i.e. ln 2 nats); with two, the code's
+            # subset search applies and the case is not judged here.
+            if kept.count(False) != 1:
+                return None
+            I2 = [i if kp else 12.0 / (t * t) for t, i, kp in zip(theta, I, kept)]
+            nll = nll_f(theta)
+            if not math.isfinite(nll) or nll > 1e200:
+                return None
+            codelen = -nparam / 2.0 * math.log(3.0) + sum(0.5 * math.log(i) + math.log(abs(t)) for t, i in zip(theta, I2))
+            a = aifeyn_of(labels)
+            return {"theta": theta, "theta_ml": theta, "nll": nll, "codelen": codelen, "aifeyn": a, "DL": nll + codelen + a,
+                    "kept": [True] * nparam, "I": I2, "fallback": True}
         k = sum(kept)
         codelen = -k / 2.0 * math.log(3.0) + sum(0.5 * math.log(i) + math.log(abs(t)) for t, i, kp in zip(theta, I, kept) if kp) if k else 0.0
         a = aifeyn_of(labels)
